@@ -34,7 +34,8 @@ RULE = (
     "ulaw / alaw), 1-8 channels, a sample count biased to multiples of 16384/frame_bytes +-3, header size "
     "1024*h with seeded field order and filler fields, an access path, and one fault or none: truncation of the "
     "data section at a seeded byte (mid-sample, mid-frame, on/next to 16 KiB read boundaries, zero data bytes), "
-    "file shorter than 1024 bytes, damaged magic, declared header size < 1024. Non-trivial = fault fired, or "
+    "file shorter than 1024 bytes, damaged magic, declared header size < 1024. Half of the runs first decode a small file "
+    "of another (or the same) coding in the same process, 20 % decode a second file afterwards. Non-trivial = fault fired, or "
     "the file spans >= 2 reads, or frame size does not divide 16384. Distinct = distinct (coding, channels, "
     "header blocks, access path, dtype request, n class relative to the read size, fault kind and position class)."
 )
